@@ -184,3 +184,52 @@ Proof.
   cbv zeta. split; [repeat constructor|]. split; [vm_compute; reflexivity|]. split; vm_compute; reflexivity.
 Qed.
 Print Assumptions C05_example.
+
+(* ---- the op-assignment compile() arms as they are in the source (regenerated table) ----------------------------
+   `a op= b` keeps every binding but a's only if compile() hands the kernel (sink = a's cell, source = b's value) in this
+   order for every combination of operand forms (plain value / reference to a variable's cell): a swapped pair in ONE of
+   the hand-copied arms makes the statement write into b's cell (an immutable binding changes, another name changes).
+   Gen/OpAssignArms.v is rewritten from machines/math/src/op_assign/*.rs by translators/opassign_arms.py on every run of
+   this check; the statements are about THAT table (definitions: Proofs/OpAssignArmsP.v, general lemma: Proofs/SrcArmsP.v). *)
+From MechV Require Import Model.SrcArms Proofs.SrcArmsP Gen.OpAssignArms Proofs.OpAssignArmsP.
+
+(* 12. the translator recognised every construct it was pointed at *)
+Theorem C05_opassign_source_fully_read : oa_unrecognised = [].
+Proof. exact oa_nothing_unrecognised. Qed.
+Print Assumptions C05_opassign_source_fully_read.
+
+(* 13. every compile() of + - * / (whole variable, x[ix], x[ix,:]) binds sink = arguments[0], source = arguments[1], calls
+       the kernel-level function of its own operator and form with (sink, source[, ixes]) directly and in every operand-form
+       arm, unwrapping every reference; one compile() per operator and form; the four operators have the same arm lists *)
+Theorem C05_opassign_compile_arms_regular :
+  forallb compile_ok oa_compile = true /\ oa_compile_complete = true /\ oa_uniform = true.
+Proof. exact (conj (proj1 oa_compile_regular) (conj (proj2 oa_compile_regular) oa_arm_lists_uniform)). Qed.
+Print Assumptions C05_opassign_compile_arms_regular.
+
+(* 14. what 13 means: for every operand-form combination the kernel-level function of the operator receives the CONTENTS of
+       (sink, source[, ixes]) in this order — never (source, sink) *)
+Theorem C05_opassign_compile_applies_kernel_to_sink_source :
+  forall (A R : Type) (c : cfn) (o form : string) (k : string -> list (rval A) -> option R) (args : list (rval A)),
+    In c oa_compile -> cf_tag c = [o; form] ->
+    (forall f vs, existsb is_ref vs = true -> k f vs = None) ->
+    List.length args = List.length (roles_of form) ->
+    (forall v, nth_error args 2 = Some v -> is_ref v = false) ->
+    exists r f, resolve_cfn c = Some r /\ callee_of o form = Some f /\ compile_model r k args = k f (map strip args).
+Proof. exact oa_compile_applies_kernel_to_sink_source. Qed.
+Print Assumptions C05_opassign_compile_applies_kernel_to_sink_source.
+
+(* 15. the general lemma behind 14, for ANY table that passes the boolean check [rcfn_ok] *)
+Theorem C05_regular_compile_unwraps_in_order :
+  forall (A R : Type) (callee : string) (roles refpos : list nat) (c : rcfn)
+         (k : string -> list (rval A) -> option R) (args : list (rval A)),
+    rcfn_ok callee roles refpos c = true ->
+    List.length args = rc_nargs c ->
+    (forall i v, nth_error args i = Some v -> is_ref v = true -> nat_in i refpos = true) ->
+    (forall f vs, existsb is_ref vs = true -> k f vs = None) ->
+    compile_model c k args =
+      match omap (fun i => option_map strip (nth_error args i)) roles with
+      | Some vs => k callee vs
+      | None => None
+      end.
+Proof. exact (@compile_model_correct). Qed.
+Print Assumptions C05_regular_compile_unwraps_in_order.
